@@ -1,6 +1,9 @@
 package main
 
-import "strings"
+import (
+	"path/filepath"
+	"strings"
+)
 
 var propConfigs = map[string]*PropConfig{}
 
@@ -112,6 +115,30 @@ func init() {
 			fn := o.Name
 			if i := strings.IndexAny(fn, "$#/"); i >= 0 {
 				fn = fn[:i]
+			}
+			if strings.HasPrefix(fn, "templ.") {
+				// a runtime function (WithChildren / ClearChildren / GetChildren / the wrappers): every corpus shape exercises it
+				// ... except the shapes behind the listed known findings, which render wrongly on the unchanged tree too
+				knownShape := map[string]bool{}
+				for _, kf := range loadKnownFindings(filepath.Join(r.verif, "known_findings.txt"), "C13") {
+					if rest, ok := strings.CutPrefix(kf.Obligation, "x_children_shapes."); ok {
+						if i := strings.IndexAny(rest, "$#/"); i >= 0 {
+							rest = rest[:i]
+						}
+						knownShape[rest] = true
+					}
+				}
+				for _, line := range strings.Split(out, "\n") {
+					if rest, ok := strings.CutPrefix(strings.TrimSpace(line), "REPLAY-CONFIRMED template "); ok {
+						if f := strings.Fields(rest); len(f) > 0 && !knownShape[f[0]] {
+							return &ReplayResult{Confirmed: true, Input: input, Detail: strings.TrimSpace(line)}
+						}
+					}
+				}
+				if !strings.Contains(out, "REPLAY-") {
+					return &ReplayResult{Confirmed: false, Input: input, Detail: "replay did not run: " + firstLines(out, 6)}
+				}
+				return &ReplayResult{Confirmed: false, Input: input, Detail: "REPLAY-NOT-REPRODUCED every shape of the children-shapes corpus renders as specified"}
 			}
 			if !strings.HasPrefix(fn, "x_children_shapes.") {
 				return &ReplayResult{Confirmed: false, Input: input, Detail: "no replay oracle for " + fn + " (only the children-shapes corpus has expected outputs)"}
